@@ -68,7 +68,7 @@ FLAGS = ((False, False), (False, True), (True, False), (True, True))
 MAX_FAILURES = 25
 
 BOUND = (
-    "Start date: every date 2015-12-15 .. 2032-03-15 (5935 dates: every weekday alignment, every month and year "
+    "(Quick tier only: five extra ranges first - four starting 1958-1969, before or across 1970-01-01, with start times 14:30, 09:30:15 and 00:00, and one ending at 23:59:59.)  Start date: every date 2015-12-15 .. 2032-03-15 (5935 dates: every weekday alignment, every month and year "
     "end, the leap days 2016/2020/2024/2028-02-29).  For each start date and each start time of day in {00:00, "
     "14:30, 09:30:15} UTC (the last carries seconds: event stamps are exact minutes whatever the start's seconds): (a) end = start date + L days at 23:59 for L in {0,1,2,3,4,5,6,7,8,9,10,31,33,70,366,800}; "
     "(b) end = start date + L days at the start's own time of day (edge of 'end time of day not before the "
@@ -380,6 +380,15 @@ def _quick_cases(seed):
     yield make_case(cal.at(wed, (14, 30)), cal.at(wed, (14, 30)), True, True)        # end == start, accepted
     yield make_case(cal.at(_dt.date(2020, 1, 11), (0, 0)), cal.at(_dt.date(2020, 1, 12), cal.END_TOD),
                     True, True)                                                      # weekend only
+    # dates before and across 1970-01-01 (negative epoch values) with a start that is not midnight, and an end with seconds
+    for d, tod, length in ((_dt.date(1969, 12, 29), (14, 30), 9), (_dt.date(1965, 3, 10), (9, 30, 15), 6),
+                           (_dt.date(1969, 12, 31), (14, 30), 1), (_dt.date(1958, 8, 1), (0, 0), 4)):
+        s, e = _shape_a(d, tod, length)
+        for pre, post in FLAGS:
+            yield make_case(s, e, pre, post)
+    s, e = cal.at(wed, (0, 0)), cal.at(wed + 6 * cal.DAY, (23, 59, 59))
+    for pre, post in FLAGS:
+        yield make_case(s, e, pre, post)
     # boundary set
     for d in cal.boundary_start_dates():
         for c in cases_for_start_date(d, lengths_a=(0, 1, 2, 3, 5, 7), lengths_b=(0, 1, 3), reject=True):
